@@ -89,7 +89,38 @@ def link_table(pages):
     return links
 
 
-def synth_link(name, serial, bs0=64, bs1=128, npk=40, ch=1, rate=8000, ppp=4):
+def pages_spanning(packets, serial, grans, segs_per_page, seq0=0):
+    """Lay packets out over pages of a fixed number of lacing segments: packets straddle page borders (continued-packet flag),
+    pages on which no packet ends carry granule -1.  Last page gets EOS."""
+    segs = []          # (length, packet index, is_last_segment_of_packet)
+    for i, p in enumerate(packets):
+        n = len(p)
+        o = 0
+        while True:
+            l = min(255, n - o)
+            segs.append((p[o:o + l], i, l < 255))
+            o += l
+            if l < 255:
+                break
+    pages = []
+    seq = seq0
+    for a in range(0, len(segs), segs_per_page):
+        chunk = segs[a:a + segs_per_page]
+        g = -1
+        for (b, i, last) in chunk:
+            if last:
+                g = grans[i]
+        flags = 0
+        if a > 0 and not segs[a - 1][2]:
+            flags |= 1                       # first segment continues a packet
+        if a + segs_per_page >= len(segs):
+            flags |= 4
+        pages.append(Page(flags, g, serial, seq, [len(b) for (b, _, _) in chunk], b''.join(b for (b, _, _) in chunk)))
+        seq += 1
+    return pages
+
+
+def synth_link(name, serial, bs0=64, bs1=128, npk=40, ch=1, rate=8000, ppp=4, pad=0, span=0):
     """A link written bit by bit by the specification-level synthesiser (block sizes the encoder never uses, e.g. 64-sample short blocks)."""
     import vspec, vsynth
     s = vsynth.base_setup(channels=ch, bs0=bs0, bs1=bs1, rate=rate)
@@ -97,6 +128,9 @@ def synth_link(name, serial, bs0=64, bs1=128, npk=40, ch=1, rate=8000, ppp=4):
     fl = vsynth.flags_for(s, modes)
     f = vsynth.Filler(fixed={'f1.nonzero': 1})
     pk = [vsynth.make_packet(s, m, f, pv, nx) for m, (pv, nx) in zip(modes, fl)]
+    if pad:
+        # trailing zero bytes are ignored by the decoder; they make packets long enough to straddle pages
+        pk = [p + bytes(pad + 97 * (i % 5)) for i, p in enumerate(pk)]
     grans, total, prev = [], 0, None
     for m in modes:
         n = s.blocksize(s.modes[m].blockflag)
@@ -114,7 +148,10 @@ def synth_link(name, serial, bs0=64, bs1=128, npk=40, ch=1, rate=8000, ppp=4):
         return l
     pages = [Page(2, 0, serial, 0, lace(hs[0]), hs[0]), Page(0, 0, serial, 1, lace(hs[1]) + lace(hs[2]), hs[1] + hs[2])]
     from vlib import pages_from_packets
-    pages += pages_from_packets(pk, serial, grans, ppp, bos=False, eos=True, seq0=2)
+    if span:
+        pages += pages_spanning(pk, serial, grans, span, seq0=2)
+    else:
+        pages += pages_from_packets(pk, serial, grans, ppp, bos=False, eos=True, seq0=2)
     blob = b''.join(x.encode() for x in pages)
     path = write_file(name + '.ogg', blob)
     return path, {'file': path, 'rate': rate, 'ch': ch, 'n': total, 'serial': serial, 'goff': 0, 'tag': name, 'packets': npk, 'pages': len(pages), 'bytes': len(blob), 'bs0': bs0, 'bs1': bs1, 'synth': True}
@@ -139,6 +176,8 @@ def standard_files():
     # links whose whole audio sits in ONE page (first == last page), first, middle and last in a chain
     out['F5'] = chain('F5', [link('D', 501, 'natural'), link('A', 502, '4'), link('D', 503, 'natural'), link('B', 504, '3'), link('D', 505, 'natural')])
     out['F6'] = chain('F6', [multiplexed('A', 601, '3'), link('B', 602, '3')])
+    # synthesised 64/128 link whose padded packets straddle 2-3 pages, with pages on which no packet ends (granule -1), between two encoder-made links
+    out['F3'] = chain('F3', [link('D', 701, 'natural'), synth_link('std_span', 702, 64, 128, 36, pad=1400, span=4), link('B', 703, '3')])
     return out
 
 
